@@ -16,6 +16,8 @@ theorem tie_h_defs_client_CreateDAG : Extracted.Defs.h_defs_client_CreateDAG = C
 theorem tie_h_defs_client_Rename : Extracted.Defs.h_defs_client_Rename = Canon.Defs.h_defs_client_Rename := by decide +kernel
 theorem tie_h_defs_client_UpdateDAG : Extracted.Defs.h_defs_client_UpdateDAG = Canon.Defs.h_defs_client_UpdateDAG := by decide +kernel
 theorem tie_h_defs_client_DeleteDAG : Extracted.Defs.h_defs_client_DeleteDAG = Canon.Defs.h_defs_client_DeleteDAG := by decide +kernel
+theorem tie_h_rest_defs_persistence_local_dag_store_go : Extracted.Defs.h_rest_defs_persistence_local_dag_store_go = Canon.Defs.h_rest_defs_persistence_local_dag_store_go := by decide +kernel
+theorem tie_h_rest_defs_client_client_go : Extracted.Defs.h_rest_defs_client_client_go = Canon.Defs.h_rest_defs_client_client_go := by decide +kernel
 
 #print axioms tie_h_defs_dagStoreImpl_UpdateSpec
 #print axioms tie_h_defs_dagStoreImpl_Create
@@ -30,5 +32,7 @@ theorem tie_h_defs_client_DeleteDAG : Extracted.Defs.h_defs_client_DeleteDAG = C
 #print axioms tie_h_defs_client_Rename
 #print axioms tie_h_defs_client_UpdateDAG
 #print axioms tie_h_defs_client_DeleteDAG
+#print axioms tie_h_rest_defs_persistence_local_dag_store_go
+#print axioms tie_h_rest_defs_client_client_go
 
 end BdModel.Tie.Defs
